@@ -629,6 +629,7 @@ func init() {
 			if !c.Mine(int64(k)) {
 				continue
 			}
+			c.Begin(&Violation{Signature: "fatal crash of the process", Generator: "c16", Input: J{"doc": json.RawMessage(d)}, Env: J{"kind": "all"}})
 			c16Sequential(c, d, ops)
 			if k < 2 || c.Thorough() || k%8 == 0 {
 				c16Interleavings(c, d, ops, 2)
@@ -648,7 +649,10 @@ func init() {
 		c := NewCtx("C16", "quick", 0, 1, "")
 		c.MaxReplays = 0
 		ops := c16Ops()
-		if v.Env["kind"] == "sequence" {
+		if v.Env["kind"] == "all" {
+			c16Sequential(c, dj, ops)
+			c16Interleavings(c, dj, ops, 2)
+		} else if v.Env["kind"] == "sequence" {
 			// keep only the operations of the recorded sequence: the search then replays exactly that path (and its prefixes)
 			var keep []qop
 			for _, n := range v.Env["path"].([]any) {
